@@ -572,3 +572,122 @@ Proof.
   pose proof (filter_filter_length_le (unconn_of p) (live (a_now s)) (cadd_list cap p ttl (a_now s) (clean_addrs l) (a_ents s))).
   lia.
 Qed.
+
+(* ==== the book-wide limit on unconnected addresses (Model.g_update, gc_add) =============== *)
+Lemma gupd_in maxu p old new now l : forall u e,
+  In e (gupd_list maxu p old new now u l) -> In e (map (upd_fun p old new now) l).
+Proof.
+  induction l as [|x l IH]; intros u e H; [destruct H|]. cbn [gupd_list] in H. cbn [map]. unfold upd_fun at 1.
+  destruct ((ep x =? p) && (ettl x =? old)).
+  - destruct (maxu <=? u); [right; now apply (IH u)|]. destruct H as [<-|H]; [now left|right; now apply (IH (u + 1))].
+  - destruct H as [<-|H]; [now left|right; now apply (IH u)].
+Qed.
+
+Lemma gupd_other maxu p old new now l q : q <> p -> forall u,
+  pents q (gupd_list maxu p old new now u l) = pents q l.
+Proof.
+  intros Hq. induction l as [|x l IH]; intros u; [reflexivity|]. cbn [gupd_list].
+  destruct ((ep x =? p) && (ettl x =? old)) eqn:C.
+  - apply andb_true_iff in C. destruct C as [C _]. apply Z.eqb_eq in C.
+    assert (Ex : (ep x =? q) = false) by (apply Z.eqb_neq; congruence).
+    destruct (maxu <=? u); cbn; rewrite Ex; apply IH.
+  - cbn. destruct (ep x =? q); [f_equal|]; apply IH.
+Qed.
+
+Lemma gupd_count maxu p old new now (Q1 Q2 : aent -> bool) l :
+  (forall e, Q1 (upd_fun p old new now e) = true -> Q2 e = true) -> forall u,
+  (length (filter Q1 (gupd_list maxu p old new now u l)) <= length (filter Q2 l))%nat.
+Proof.
+  intros H. induction l as [|x l IH]; intros u; [cbn; lia|]. cbn [gupd_list]. specialize (H x). unfold upd_fun in H.
+  destruct ((ep x =? p) && (ettl x =? old)).
+  - destruct (maxu <=? u).
+    + specialize (IH u). cbn [filter]. destruct (Q2 x); cbn [length]; lia.
+    + specialize (IH (u + 1)). cbn [filter]. destruct (Q1 _) eqn:E; [rewrite (H eq_refl)|destruct (Q2 x)]; cbn [length]; lia.
+  - specialize (IH u). cbn [filter]. destruct (Q1 x) eqn:E; [rewrite (H eq_refl)|destruct (Q2 x)]; cbn [length]; lia.
+Qed.
+
+Lemma g_update_src maxu s p old new e : In e (a_ents (g_update maxu s p old new)) ->
+  exists e0, In e0 (a_ents s) /\ e = upd_fun p old new (a_now s) e0.
+Proof.
+  unfold g_update. destruct (_ && _).
+  - rewrite mk_norm_ents. intros H. apply filter_In in H. destruct H as [H _]. apply gupd_in in H.
+    apply in_map_iff in H. destruct H as [e0 [<- H0]]. now exists e0.
+  - rewrite a_update_ents. intros H. apply filter_In in H. destruct H as [H _].
+    apply in_map_iff in H. destruct H as [e0 [<- H0]]. now exists e0.
+Qed.
+
+Lemma g_update_ok maxu s p o n : book_ok s -> book_ok (g_update maxu s p o n).
+Proof.
+  intros H. unfold g_update. destruct (_ && _); [|now apply a_update_ok]. destruct H as [_ H2]. rewrite H2. apply mk_norm_ok.
+Qed.
+
+Lemma g_update_other maxu s p old new q : q <> p -> all_live s ->
+  pents q (a_ents (g_update maxu s p old new)) = pents q (a_ents s).
+Proof.
+  intros Hq Hl. unfold g_update. destruct (_ && _); [|now apply a_update_other].
+  rewrite mk_norm_ents, pents_live_comm, gupd_other by exact Hq. now apply pents_live_id.
+Qed.
+
+Lemma gupd_establish maxu s p old new : old <> new -> pall p (fun t => t <> old) (g_update maxu s p old new).
+Proof.
+  intros Hne e He Hp. apply g_update_src in He. destruct He as [e0 [H0 ->]]. unfold upd_fun in *.
+  destruct ((ep e0 =? p) && (ettl e0 =? old)) eqn:C; cbn in *; [congruence|].
+  apply andb_false_iff in C. destruct C as [C|C]; apply Z.eqb_neq in C; congruence.
+Qed.
+
+Lemma gupd_preserve maxu s p q old new (P : Z -> Prop) : P new -> pall p P s -> pall p P (g_update maxu s q old new).
+Proof.
+  intros Hn H e He Hp. apply g_update_src in He. destruct He as [e0 [H0 ->]]. unfold upd_fun in *.
+  destruct ((ep e0 =? q) && (ettl e0 =? old)); cbn in *; [exact Hn|now apply H].
+Qed.
+
+Lemma g_update_in maxu s p old new e : In e (a_ents (g_update maxu s p old new)) ->
+  In e (a_ents s) \/ ettl e = new.
+Proof.
+  intros H. apply g_update_src in H. destruct H as [e0 [H0 ->]]. unfold upd_fun.
+  destruct (_ && _); cbn; [now right|now left].
+Qed.
+
+Lemma g_update_count maxu (Q1 Q2 : aent -> bool) s p old new :
+  (forall e, Q1 (upd_fun p old new (a_now s) e) = true -> Q2 e = true) ->
+  (length (filter Q1 (a_ents (g_update maxu s p old new))) <= length (filter Q2 (a_ents s)))%nat.
+Proof.
+  intros H. unfold g_update. destruct (_ && _); [|now apply a_update_count]. rewrite mk_norm_ents.
+  pose proof (filter_filter_length_le Q1 (live (a_now s))
+                (gupd_list maxu p old new (a_now s) (uall (a_ents s)) (a_ents s))).
+  pose proof (gupd_count maxu p old new (a_now s) Q1 Q2 (a_ents s) H (uall (a_ents s))). lia.
+Qed.
+
+(* AddAddrs dropped as a whole at the limit: every statement about c_add carries over *)
+Lemma gc_add_cases cap maxu s p l ttl : gc_add cap maxu s p l ttl = s \/ gc_add cap maxu s p l ttl = c_add cap s p l ttl.
+Proof. unfold gc_add. destruct (_ && _); [now left|now right]. Qed.
+
+Lemma gc_add_ok cap maxu s p l ttl : book_ok s -> book_ok (gc_add cap maxu s p l ttl).
+Proof. intros H. destruct (gc_add_cases cap maxu s p l ttl) as [-> | ->]; [exact H|now apply c_add_ok]. Qed.
+
+Lemma gc_add_other cap maxu s p l ttl q : q <> p -> all_live s ->
+  pents q (a_ents (gc_add cap maxu s p l ttl)) = pents q (a_ents s).
+Proof. intros Hq Hl. destruct (gc_add_cases cap maxu s p l ttl) as [-> | ->]; [reflexivity|now apply c_add_other]. Qed.
+
+Lemma gcadd_preserve cap maxu s p q l ttl (P : Z -> Prop) :
+  (forall t, P t -> P (Z.max t ttl)) -> P ttl -> pall p P s -> pall p P (gc_add cap maxu s q l ttl).
+Proof. intros Hm Ht H. destruct (gc_add_cases cap maxu s q l ttl) as [-> | ->]; [exact H|now apply cadd_preserve]. Qed.
+
+Lemma gc_add_in cap maxu s p l ttl e : In e (a_ents (gc_add cap maxu s p l ttl)) ->
+  In e (a_ents s) \/ (ep e = p /\ In (ea e) (clean_addrs l)).
+Proof. destruct (gc_add_cases cap maxu s p l ttl) as [-> | ->]; [now left|apply c_add_in]. Qed.
+
+Lemma gc_add_count (Q : aent -> bool) cap maxu s p l ttl :
+  (length (filter Q (a_ents (gc_add cap maxu s p l ttl))) <= length (filter Q (a_ents s)) + length l)%nat.
+Proof. destruct (gc_add_cases cap maxu s p l ttl) as [-> | ->]; [lia|apply c_add_count]. Qed.
+
+Lemma gc_add_count_same (Q : aent -> bool) cap maxu s p l ttl :
+  (forall a exp, Q (mkE p a ttl exp) = false) ->
+  (forall a exp e0, key_is p a e0 = true ->
+     Q (mkE p a (Z.max (ettl e0) ttl) (Z.max (eexp e0) exp)) = true -> Q e0 = true) ->
+  (length (filter Q (a_ents (gc_add cap maxu s p l ttl))) <= length (filter Q (a_ents s)))%nat.
+Proof. intros Hn Hk. destruct (gc_add_cases cap maxu s p l ttl) as [-> | ->]; [lia|now apply c_add_count_same]. Qed.
+
+Lemma gc_add_ucount cap maxu s p l ttl : 0 < cap ->
+  ucount p (a_ents (gc_add cap maxu s p l ttl)) <= Z.max cap (ucount p (a_ents s)).
+Proof. intros Hc. destruct (gc_add_cases cap maxu s p l ttl) as [-> | ->]; [lia|now apply c_add_ucount]. Qed.
